@@ -223,10 +223,12 @@ def rdc():
 # =================================================================================================
 # FILE_NOTIFY_INFORMATION encoder
 # =================================================================================================
-def encode(records, extra=None, fill=0xCD):
+def encode(records, extra=None, fill=0):
     """records: [(action, name)], extra: per record number of additional padding DWORDs after the
     DWORD-aligned end of the name.  NextEntryOffset of the last record is 0.  Padding is filled with
-    `fill` (its content is unspecified).  Returns (bytes, n_bytes)."""
+    `fill` (its content is unspecified; zero by default so that a decoder that wrongly reads padding as a
+    header sees length 0 instead of a wild length and cannot read gigabytes through ctypes.string_at).
+    Returns (bytes, n_bytes)."""
     out = bytearray()
     n = len(records)
     for i, (action, name) in enumerate(records):
@@ -260,7 +262,7 @@ def selftest():
     recs = [(1, "d"), (4, "d/f"), (5, "e/f"), (3, "")]
     try:
         buf, n = encode(recs, extra=[0, 1, 0, 2])
-        got = w._parse_event_buffer(buf + b"\xAA" * 16, n)
+        got = w._parse_event_buffer(buf + bytes(16), n)
         if got != recs:
             ROUNDTRIP_PROBLEMS.append(f"_parse_event_buffer(encode({recs})) = {got}")
         # through the fake kernel32 and the real read_events
